@@ -135,6 +135,15 @@ Definition alm_step (ws : list mword) (c : acall) (st : astate) : option astate 
       end
   end.
 
+Fixpoint alm_history (ws : list mword) (cs : list acall) (st : astate) : option astate :=
+  match cs with
+  | [] => Some st
+  | c :: t => match alm_step ws c st with
+              | Some st' => alm_history ws t st'
+              | None => None
+              end
+  end.
+
 (* ------------------------------------------------------------------ *)
 (* checkers and the correspondence case *)
 
